@@ -140,6 +140,13 @@ def rand_op(rng, g, allow_group=True):
         if r < 0.59:
             return "cmp %s" % t
         if r < 0.61:
+            q = rng.random()
+            if q < 0.25:   # an empty container that owns storage (Size() == 0, Capacity() != 0)
+                if loc_is_root(t):
+                    g.overwrite(tr)
+                return "rsv %s %d %d" % (t, rng.choice([2, 3]), rng.choice([0, 1, 2, 3, 5]))
+            if q < 0.45:
+                return "clr %s" % t
             return "typ %s %d" % (t, rng.choice([0, 2, 3, 4, 5, 6, 7, 8, 9, 10, 1, 11]))
         if r < 0.66:
             if rng.random() < 0.2:
